@@ -543,7 +543,9 @@ Definition run_c03w (invert implicit_temp explicit_stage : bool) (host : hostg) 
                         L (map (fun xg => t_glued_w show_ex hb rc (fst xg) (snd xg)) gs);
                         tbool (wf_hostb hb && forallb (fun xg => match_rcb hb rc (fst xg)) gs)]) glued in
       L [L [trc (negb implicit_temp) rc; tmolg l; tmolg r]; tbool flag; tmolg pat; L rows; tbool crashed;
-         tbool (wf_rcb rc && wf_hostb host)]
+         tbool (wf_rcb rc && wf_hostb host);
+         (* round 4: the explicit-hydrogen route is taken for every mapping exactly when the pattern keeps X-H hydrogens *)
+         tbool (forallb (fun c : mapping * option (list mapping) => Bool.eqb flag (match snd c with Some _ => true | None => false end)) calls)]
   end.
 
 (** ** round 3 addition: SynReactor._wrap_template for a template given as a SynRule OBJECT.  Not inverted: the rule is
@@ -572,7 +574,8 @@ Definition run_rule (explicit_stage stripped : bool) (host : hostg) (calls : lis
                         L (map (fun xg => t_glued_w show_ex hb rc (fst xg) (snd xg)) gs);
                         tbool (wf_hostb hb && forallb (fun xg => match_rcb hb rc (fst xg)) gs)]) glued in
       L [L [trc stripped rc; tmolg l; tmolg r]; tbool flag; tmolg pat; L rows; tbool crashed;
-         tbool (wf_rcb rc && wf_hostb host)]
+         tbool (wf_rcb rc && wf_hostb host);
+         tbool (forallb (fun c : mapping * option (list mapping) => Bool.eqb flag (match snd c with Some _ => true | None => false end)) calls)]
   end.
 
 (** the caller built SynRule(tpl) in the hydrogen mode of the reactor and handed the OBJECT over *)
